@@ -39,7 +39,7 @@ Print Assumptions C17_close_then_closed.
 (* Refuted: after Remove, a write through a handle opened earlier makes the old name exist again. *)
 Theorem C17_resurrection_refuted :
   let ops := [WriteFile (S "a") [1;2] 420; Open (S "a") 2 0; Remove (S "a"); H 0 (HWrite [7])] in
-  map fst (snd (last (run kv_init [WriteFile (S "a") [1;2] 420; Open (S "a") 2 0; Remove (S "a")]) (VOk, []))) = [dot]
-  /\ map fst (snd (last (run kv_init ops) (VOk, []))) = [dot; S "a"].
+  map (fun e => fst (fst (fst e))) (snd (last (run kv_init [WriteFile (S "a") [1;2] 420; Open (S "a") 2 0; Remove (S "a")]) (VOk, []))) = [dot]
+  /\ map (fun e => fst (fst (fst e))) (snd (last (run kv_init ops) (VOk, []))) = [dot; S "a"].
 Proof. vm_compute. auto. Qed.
 Print Assumptions C17_resurrection_refuted.
